@@ -1,6 +1,8 @@
 package responsemanager
 
 import (
+	"sync"
+
 	"github.com/libp2p/go-libp2p/core/peer"
 
 	"github.com/ipfs/go-graphsync"
@@ -24,6 +26,34 @@ type subscriber struct {
 	networkErrorListeners NetworkErrorListeners
 	completedListeners    CompletedListeners
 	connManager           network.ConnManager
+
+	// A request has one outcome for its listeners: completed, cancelled by the requestor, or failed
+	// on the network. Messages the request is still attached to when that outcome has been reported
+	// (one queued before a cancel, one queued for another peer connection) report no second one.
+	outcomeLk sync.Mutex
+	outcome   requestOutcome
+}
+
+type requestOutcome int
+
+const (
+	outcomeNone requestOutcome = iota
+	outcomeNetworkError
+	outcomeCompleted
+	outcomeCancelled
+)
+
+// reportOutcome records the outcome about to be reported to listeners and returns whether it
+// is to be reported: further network errors after a first one are, anything else after an
+// outcome is not.
+func (s *subscriber) reportOutcome(outcome requestOutcome) bool {
+	s.outcomeLk.Lock()
+	defer s.outcomeLk.Unlock()
+	if s.outcome == outcomeNone {
+		s.outcome = outcome
+		return true
+	}
+	return s.outcome == outcomeNetworkError && outcome == outcomeNetworkError
 }
 
 func (s *subscriber) OnNext(_ notifications.Topic, event notifications.Event) {
@@ -38,7 +68,9 @@ func (s *subscriber) OnNext(_ notifications.Topic, event notifications.Event) {
 		if responseCode.IsTerminal() {
 			s.requestCloser.TerminateRequest(s.request.ID())
 		}
-		s.networkErrorListeners.NotifyNetworkErrorListeners(s.p, s.request, responseEvent.Err)
+		if s.reportOutcome(outcomeNetworkError) {
+			s.networkErrorListeners.NotifyNetworkErrorListeners(s.p, s.request, responseEvent.Err)
+		}
 	case messagequeue.Sent:
 		blockDatas := responseEvent.Metadata.BlockData[s.request.ID()]
 		for _, blockData := range blockDatas {
@@ -47,7 +79,9 @@ func (s *subscriber) OnNext(_ notifications.Topic, event notifications.Event) {
 		responseCode := responseEvent.Metadata.ResponseCodes[s.request.ID()]
 		if responseCode.IsTerminal() {
 			s.requestCloser.TerminateRequest(s.request.ID())
-			s.completedListeners.NotifyCompletedListeners(s.p, s.request, responseCode)
+			if s.reportOutcome(outcomeCompleted) {
+				s.completedListeners.NotifyCompletedListeners(s.p, s.request, responseCode)
+			}
 		}
 	}
 }
